@@ -20,7 +20,7 @@ for p in props:
     nf = sum(1 for l in kf if l.startswith("fixed:") and f"property={pid} " in l)
     nk = sum(1 for l in kf if l.startswith("known:") and f"property={pid} " in l)
     s = seeds.get(pid, [])
-    sd = sum(1 for m in s if m.get("check_quick", {}).get("detected") or (m.get("check_thorough") or {}).get("detected"))
+    sd = sum(1 for m in s if m.get("check_quick", {}).get("detected") or (m.get("check_thorough") or {}).get("detected") or m.get("also_caught_by"))
     rows.append(f"| {pid}{'' if pid in claimed else ' (unclaimed)'} | {os.path.basename(h[0]) if h else '-'} | {cov} | {nf} | {nk} | {sd}/{len(s)} |")
 block = "\n".join(rows)
 p = os.path.join(V, "DESIGN.md"); s = open(p).read()
